@@ -145,7 +145,7 @@ def det_batch(args):
     return out
 
 
-def minimise(spec, values: List[int], sig: str, budget_evals=3000, budget_s=120.0, forced=None):
+def minimise(spec, values: List[int], sig: str, budget_evals=3000, budget_s=60.0, forced=None):
     """Delta-debugging over the recorded choice list; keeps the same violation signature."""
     t0 = time.time()
     evals = 0
@@ -387,7 +387,7 @@ def run_property(prop: str, tier: str, base_seed: int, workers: int, budget_s: f
     reported = 0
     seen_sigs = set()
     for d, v in agg["violations"]:
-        if v["sig"] in seen_sigs:
+        if v["sig"] in seen_sigs or len(seen_sigs) >= 3:
             continue
         seen_sigs.add(v["sig"])
         values = d["choices"]
